@@ -200,23 +200,31 @@ def w_cases(item, rep):
 
 def build_items(tier, seed):
     items = []
-    bound = 1 if tier == "quick" else 2
     k = 0
-    # all routes x ack / non-ack / system types x timeouts, every single (pair of) failure point(s)
+    # all routes x ack / non-ack / system types x timeouts, every single (thorough: pair / triple of) failure point(s)
     for (s, d) in ROUTES:
         hops = len(N.tree_path(s, d)) - 1
         for tmo in TIMEOUTS:
             types = (65, 127, 1, 64, 191, 192) if tmo == TIMEOUTS[0] else (65, 0)
             if tier == "thorough":
-                types = types + (128, 130, 148, 150, 193)
+                types = (65, 127, 1, 64, 191, 192, 128, 130, 148, 150, 193) if tmo == TIMEOUTS[0] else (65, 0, 127, 191)
+            timings = [None] if tier == "quick" else [(0, 0), (2, 2), (1, 1), (3, 0)]
             for t in types:
-                k += 1
-                b = bound if hops <= 4 or tier == "quick" else 1
-                items.append(([dict(src=s, dst=d, mtype=t, mlen=(k * 5) % 25, tmo=list(tmo), cost=0 if k % 3 else 2, lat=0 if k % 2 else 2,
-                                    seed=seed, id0=(k * 977) & 0xFFFF)], b))
-    # all 256 types on a 2-hop route (loss-free + every single failure point)
-    for t0 in range(0, 256, 8):
-        items.append(([dict(src=O("1"), dst=O("2"), mtype=t, mlen=t % 25, tmo=[25, 75], cost=0, lat=0, seed=seed, id0=t * 3) for t in range(t0, t0 + 8)], 1))
+                for tm in timings:
+                    k += 1
+                    if tier == "quick":
+                        b = 1
+                        cost, lat = (0 if k % 3 else 2), (0 if k % 2 else 2)
+                    else:
+                        cost, lat = tm
+                        b = (3 if hops <= 3 else 2) if tm == (0, 0) else (2 if hops <= 4 else 1)
+                    items.append(([dict(src=s, dst=d, mtype=t, mlen=(k * 5) % 25, tmo=list(tmo), cost=cost, lat=lat,
+                                        seed=seed, id0=(k * 977) & 0xFFFF, max_execs=20000)], b))
+    # all 256 types on a 2-hop route (loss-free + every single failure point; thorough: + pairs, 2 more routes)
+    for (s, d) in ((O("1"), O("2")),) + (((O("11"), O("0")), (O("0"), O("22"))) if tier == "thorough" else ()):
+        for t0 in range(0, 256, 8):
+            items.append(([dict(src=s, dst=d, mtype=t, mlen=t % 25, tmo=[25, 75], cost=0, lat=0, seed=seed, id0=t * 3) for t in range(t0, t0 + 8)],
+                          1 if tier == "quick" else 2))
     # multicasts of ack-range types never cause a NETWORK_ACK
     for lvl in (0, 1, 2):
         items.append(([dict(src=O("1"), dst=O("0"), mtype=t, mlen=3, tmo=[25, 75], cost=0, lat=0, seed=seed, id0=9, multicast=True, multicast_level=lvl)
@@ -237,7 +245,7 @@ def run(tier, seed, rep, only=None):
              "chooses delivered / lost for good; the loss-free execution plus EVERY single failure point (thorough: every pair on routes <= 4 hops) of "
              "each (route, type, timeout setting) case is executed with all nodes running the real code. Non-trivial = distinct (case, failure set).",
         bounds=dict(routes=["%o->%o" % r for r in ROUTES], timeouts=[list(t) for t in TIMEOUTS], all_256_types_on="1->2 (2 hops)",
-                    failure_points_per_execution=1 if tier == "quick" else 2),
+                    failure_points_per_execution="1" if tier == "quick" else "3 on routes <= 3 hops, 2 elsewhere (1 on 8-hop routes in the non-default timing classes)"),
         trusted_base=["vf/sim.py", "vf/net.py"],
         assumptions=["a lost frame hop stays lost (every retransmission of that frame by that node is dropped); hardware ACKs are not dropped here (C02 covers ACK loss)",
                      "NETWORK_ACK arrival within +-3 ms of the route_timeout deadline accepts either return value"],
